@@ -93,11 +93,11 @@ Template(t, seed) ==
 Seeds == <<1, 6, 1, 4, 2, 1, 2, 2>>
 
 \* a 3 x 3 patch of the square lattice (spacing 7/3) filling a periodic 21 x 21 cell, two frames
-\* (the second one rigidly displaced), and a tetrahedrally coordinated cluster with open boundaries
+\* (the second one slightly distorted), and a tetrahedrally coordinated cluster with open boundaries
 SquarePatch ==
   LET H == Tri2(21, 0, 21)  org == <<0 - 10, 0 - 10>>
       p1 == [i \in 1..9 |-> <<org[1] + 2 + 7 * ((i - 1) % 3), org[2] + 3 + 7 * ((i - 1) \div 3)>>]
-      p2 == [i \in 1..9 |-> VAdd(p1[i], <<1, 0 - 2>>)]
+      p2 == [i \in 1..9 |-> VAdd(p1[i], <<1 + (i % 3), ((2 * i) % 3) - 2>>)]
   IN  Mk(9, 2, H, org, <<1, 1>>, <<1, 1, 1, 2, 2, 2, 1, 1, 1>>, <<p1, p2>>, 5, 4)
 TetraCluster ==
   LET H == Tri3(45, 45, 45, 0, 0, 0)  org == <<0, 0, 0>>  o == <<20, 20, 20>>
@@ -163,8 +163,9 @@ Tr == IF Mode = "traj" THEN ndJsonDeserialize(IOEnv.TRACE_FILE) ELSE << >>
 \* a two-particle skeleton with the cell shape, mask, species tables and lengths of the descriptor
 Skel(ds) ==
   LET d == ds.d
-      H == IF ds.diag = 1 THEN (IF d = 2 THEN Tri2(ds.L[1], 0, ds.L[2]) ELSE Tri3(ds.L[1], ds.L[2], ds.L[3], 0, 0, 0))
-           ELSE (IF d = 2 THEN Tri2(ds.L[1], 7, ds.L[2]) ELSE Tri3(ds.L[1], ds.L[2], ds.L[3], 7, 0 - 5, 3))
+      \* only the SHAPE of the cell matters for applicability (orthogonal or fully tilted); small numbers
+      H == IF ds.diag = 1 THEN (IF d = 2 THEN Tri2(21, 0, 35) ELSE Tri3(15, 21, 35, 0, 0, 0))
+           ELSE (IF d = 2 THEN Tri2(21, 7, 35) ELSE Tri3(21, 15, 35, 7, 0 - 5, 3))
       K == ds.K
   IN  [ id |-> ds.id, d |-> d, S |-> 1000, H |-> H, org |-> Zero(d), ppp |-> ds.ppp,
         types |-> [i \in 1..K |-> i], frames |-> << [i \in 1..K |-> Zero(d)] >>,
@@ -269,6 +270,8 @@ CaseTraj ==
         tab  |-> [R |-> sk.R, dia |-> sk.dia, E |-> sk.E, ms |-> sk.ms, an |-> sk.an, ad |-> sk.ad],
         tab2 |-> [R |-> sz.c.R, dia |-> sz.c.dia, E |-> sz.c.E, ms |-> sz.c.ms],
         sigma |-> sz.sigma, gr_cols |-> ColMapGr(sk, sz), sq_cols |-> ColMapSq(sk, sz),
+        lin |-> sz.lin, mm |-> MM(sz), S1 |-> sz.c.S, reflects |-> (sk.d = 2 /\ Reflects(sz)),
+        psi_phase |-> IF sk.d = 2 THEN [l \in 1..8 |-> PsiPhaseT(sz, l)] ELSE << >>,
         vecs |-> sk.vecs, vecs2 |-> sz.c.vecs,
         obs |-> SelectSeq(ObsNames, LAMBDA ob : Respects(ob, [d |-> sk.d, diag |-> IsDiagonal(sk.H), ppp |-> sk.ppp,
                                                                     nfr |-> Tr[b].nfr, n |-> Tr[b].N], sz)) ]
